@@ -134,4 +134,29 @@ theorem cfgOf_ok (L : Nat) (hL : L < 5) (dec : Char) (hdec : dec = '.' ∨ dec =
     true_not_col := b8
     false_not_col := b9 }
 
+/-- the stored form: `Lexer::new(_, LexerMode::R1C1, locale, language)` with the same tables -/
+theorem cfgOf_rc_ok (L : Nat) (hL : L < 5) (dec : Char) (hdec : dec = '.' ∨ dec = ',') :
+    CfgRC (cfgOf false dec L) := by
+  have h := cfgOf_ok L hL dec hdec
+  exact {
+    rc := rfl
+    decimal := h.decimal
+    white_special := h.white_special
+    white_alnum := h.white_alnum
+    white_us := h.white_us
+    alpha_alnum := h.alpha_alnum
+    upper_alpha := h.upper_alpha
+    upper_ascii := h.upper_ascii
+    digit_alnum := h.digit_alnum
+    digit_not_alpha := h.digit_not_alpha
+    special_not_alnum := h.special_not_alnum
+    errors := h.errors
+    true_alpha := h.true_alpha
+    false_alpha := h.false_alpha
+    true_upper := h.true_upper
+    false_upper := h.false_upper
+    true_ne_false := h.true_ne_false
+    true_not_col := h.true_not_col
+    false_not_col := h.false_not_col }
+
 end IronCalc.Formula
